@@ -237,6 +237,17 @@ pub open spec fn s_shape(s: Statement) -> bool decreases s {
 pub open spec fn e_ok(e: Expression, n: int) -> bool { e_below(e, n) && e_nodecl(e) && e_shape(e) }
 pub open spec fn s_ok(s: Statement, n: int) -> bool { s_below(s, n) && s_nodecl(s) && s_shape(s) }
 pub open spec fn all_ok(ss: Seq<Statement>, n: int) -> bool { forall|i: int| 0 <= i < ss.len() ==> s_ok(#[trigger] ss[i], n) }
+/// what the type checker expects of a TOP-LEVEL statement: a declaration (whose variable id is in
+/// range) or a definition (well formed as any inner statement)
+pub open spec fn os_ok(s: Statement, n: int) -> bool {
+    match s {
+        Statement::Enum { var, .. } => var < n,
+        Statement::Blob { var, .. } => var < n,
+        Statement::ExternalDefinition { var, .. } => var < n,
+        Statement::Definition { .. } => s_ok(s, n),
+        _ => false,
+    }
+}
 
 /// one-level view of e_ok (non-recursive): what the children of a well-formed node satisfy. Functions
 /// with many arms hide the recursive predicates and use this through lemma_e_ok_children instead.
